@@ -183,9 +183,13 @@ ANY = _Any()
 class Pred:
     """spec value given as a predicate over the real result"""
 
-    def __init__(self, fn, desc=""):
+    def __init__(self, fn, desc="", native=None):
         self.fn = fn
         self.desc = desc
+        self.native = native  # fn(real_result) -> bool, used by the native cross-check
+
+    def __repr__(self):
+        return f"Pred({self.desc})"
 
 
 # ----------------------------------------------------------------------
